@@ -10,7 +10,7 @@
 //! and secret; the server closes the socket no later than the timeout (+ slack) after connect.
 
 use crate::cookie::{self, CookieSpec, Identity, Mutation};
-use crate::net::{self, ListenerCfg, NetClient, NetScript, RecvErr};
+use crate::net::{self, ListenerCfg, NetClient, NetScript};
 use crate::refcodec::{self as rc, Pkt};
 use crate::runner::{CaseInfo, Check, Stats, Tier, Verdict};
 use crate::sim;
